@@ -18,13 +18,13 @@ static bool glob(const QString &p, int i, const QString &s, int j) {            
 struct R { QString pat; int type; bool en; };   // type -1: untyped
 int main(int argc, char **argv) {
     unsigned long long seed = strtoull(argv[1], 0, 10); int runs = atoi(argv[2]); int checks = 0, bad = 0;
-    const char *pats[] = {"app", "app.*", "*", "app.core", "*.io", "a*c", "*pp*", "plugin[1]", "app.what?", "a+b", "x(y)", "app.io/file", "qml/js", "a.b", "a|b", "net.*.tcp", "*.debug", "$x^"};
-    const char *cats[] = {"app", "app.core", "app.io", "app.io/file", "qml/js", "plugin[1]", "plugin1", "app.whatX", "app.what?", "a+b", "aab", "x(y)", "abc", "ac", "a.b", "axb", "a|b", "a", "net.x.tcp", "default", "", "app.debug", "$x^"};
+    const char *pats[] = {"app", "app.*", "*", "app.core", "*.io", "a*c", "*pp*", "plugin[1]", "app.what?", "a+b", "x(y)", "app.io/file", "qml/js", "a.b", "a|b", "net.*.tcp", "*.debug", "$x^", "app.Debug", "*.WARNING"};
+    const char *cats[] = {"app", "app.core", "app.io", "app.io/file", "qml/js", "plugin[1]", "plugin1", "app.whatX", "app.what?", "a+b", "aab", "x(y)", "abc", "ac", "a.b", "axb", "a|b", "a", "net.x.tcp", "default", "", "app.debug", "$x^", "app.Debug", "app"};
     const char *tnames[] = {"debug", "info", "warning", "critical"}; QtMsgType tv[] = {QtDebugMsg, QtInfoMsg, QtWarningMsg, QtCriticalMsg};
     for (int run = 0; run < runs; ++run) {
         st = seed * 7919ULL + run; std::vector<R> rules; QString text; int n = 1 + rnd(6);
         for (int k = 0; k < n; ++k) {
-            if (rnd(6) == 0) { const char *junk[] = {"garbage line", "=true", "app=maybe", "app.core = ", "# comment", "app.info.debug=true=false"}; text += junk[rnd(6)]; }
+            if (rnd(6) == 0) { const char *junk[] = {"garbage line", "=true", "app=maybe", "app.core = ", "# comment", "app.info.debug=true=false", "app=True", "*=FALSE", "app.core=False"}; text += junk[rnd(9)]; }   // keywords are lower-case: other spellings are malformed lines
             else { R r; r.pat = pats[rnd(sizeof pats / sizeof *pats)]; r.type = rnd(3) ? -1 : (int)rnd(4); r.en = rnd(2);
                    if (rnd(5) == 0 && !rules.empty()) { r.pat = rules[rnd(rules.size())].pat; }          // re-stated rule
                    QString line = r.pat + (r.type >= 0 ? QString(".") + tnames[r.type] : QString()) + (rnd(3) ? "=" : " = ") + (r.en ? "true" : "false");
@@ -48,4 +48,4 @@ def replay(rec, workdir):
     try: exe = common.build_driver(workdir, 'c15_rules', DRIVER)
     except Exception as e: return False, 'replay build failed: %s' % e
     rc, out = common.run(exe, [str(seed), '400'], timeout=300)
-    return rc == 1, 'native replay (400 seeded random rule lists x 23 categories x 4 types against an independent reference; bounded, proves nothing):\n' + out[-2500:]
+    return rc == 1, 'native replay (400 seeded random rule lists (incl. upper-case keyword spellings, which are malformed lines) x 25 categories x 4 types against an independent reference; bounded, proves nothing):\n' + out[-2500:]
